@@ -164,5 +164,35 @@ def concrete_crash(cfg, shapes, steps=2, seed=0):
       install_root_stub()
 
 
+def trace_sharded(cfg, params, D):
+  """sharded (pjit) variant traced under a one-device mesh with real PartitionSpecs;
+  the declared num_devices_for_pjit = D is independent of the mesh"""
+  import jax
+  from jax.sharding import Mesh, PartitionSpec as PS
+  ds = ds_module()
+  c = full_cfg(cfg)
+  mesh = Mesh(np.array(jax.devices()[:1]), ('x',))
+  lr = lr_schedule if c['lr_schedule'] else c['lr']
+  opt = ds.distributed_shampoo(
+      lr, c['block_size'], beta1=c['beta1'], beta2=c['beta2'], diagonal_epsilon=c['diagonal_epsilon'],
+      matrix_epsilon=c['matrix_epsilon'], weight_decay=c['weight_decay'], start_preconditioning_step=c['start'],
+      preconditioning_compute_steps=c['q'], statistics_compute_steps=c['s'],
+      best_effort_shape_interpretation=c['merge'], graft_type=getattr(ds.GraftingType, c['graft']), nesterov=c['nesterov'],
+      exponent_override=c['exponent_override'], inverse_failure_threshold=c['thr'],
+      moving_average_for_momentum=c['moving_average'], skip_preconditioning_dim_size_gt=c['skip_dim_gt'],
+      merge_small_dims_block_size=c['merge_block'], skip_preconditioning_rank_lt=c['skip_rank_lt'],
+      decoupled_learning_rate=c['decoupled_lr'], decoupled_weight_decay=c['decoupled_wd'],
+      statistics_partition_spec=PS('x', None, None), preconditioner_partition_spec=PS('x', None, None),
+      num_devices_for_pjit=D, shard_optimizer_states=True, generate_training_metrics=c['metrics'])
+  with mesh:
+    fns = opt.init(params)
+    state = fns.init_fn(params)
+    try:
+      tr = Traced(lambda g, s, p: opt.update(g, s, p), (params, state, params), name='a')
+    except Exception as ex:
+      raise RealCodeError(ex, 'sharded update') from ex
+  return tr, state, opt, mesh
+
+
 def zeros_tree(shapes):
   return {f'p{i}': jnp.zeros(tuple(sh), jnp.float32) for i, sh in enumerate(shapes)}
